@@ -52,6 +52,9 @@ ApplyConns(f, op) ==
 
 ApplyDg(d, op) ==
   CASE op.op = "recv"    -> DgSettle(DgRecv(d, op.what, op.r, op.svc))
+    [] op.op = "reconf"   -> DgReconf(d, op.r)
+    [] op.op = "spurious" -> DgSpurious(d)
+    [] op.op = "senderr"  -> DgSendErr(d)
     [] op.op = "release" -> IF op.r \in DOMAIN d.tasks THEN DgSettle(DgRelease(d, op.r)) ELSE d
     [] OTHER             -> d
 
@@ -91,8 +94,12 @@ ConnOps(x) ==
 
 DgOps(x) ==
   UNION {
+    {Op("reconf", 0, "", lim, "") : lim \in {512, 1232, 4096} \ {x.dg.limit}},
+    {Op("spurious", 0, "", 0, "")},
+    IF x.dg.sendfail = 0 THEN {Op("senderr", 0, "", 0, "")} ELSE {},
     IF x.sent[1] < MaxReq
       THEN {Op("recv", 0, wh, x.sent[1] + 1, svc) : wh \in {"query", "short"}, svc \in Kinds}
+           \cup {Op("recv", 0, "query", x.sent[1] + 1, "big")}
            \cup {Op("recv", 0, wh, x.sent[1] + 1, "") : wh \in {"reply", "shortqr"}}
       ELSE {},
     {Op("release", 0, "", r, "") :
@@ -100,9 +107,9 @@ DgOps(x) ==
 
 Ops(x) == IF Mode = "dgram" THEN DgOps(x) ELSE ConnOps(x)
 
-ProjI(x) == IF Mode = "dgram" THEN [sent |-> DgProj(x.dg), alive |-> TRUE]
+ProjI(x) == IF Mode = "dgram" THEN [sent |-> DgProj(x.dg), alive |-> x.dg.alive]
             ELSE [cs |-> [c \in Conns |-> Proj(x.ci[c])], alive |-> TRUE]
-ProjD(x) == IF Mode = "dgram" THEN [sent |-> DgProj(x.dg), alive |-> TRUE]
+ProjD(x) == IF Mode = "dgram" THEN [sent |-> DgProj(x.dg), alive |-> x.dg.alive]
             ELSE [cs |-> [c \in Conns |-> Proj(x.cd[c])], alive |-> TRUE]
 
 Init == w = W0 /\ hist = <<>>
@@ -181,6 +188,13 @@ Directed ==
      \* the next client is served
      <<OF(1), OF(2), OF(3), O(4), Cr(4), Q(4,1,"single"), Rl(4,1)>>,
      <<O(1), OF(2), OF(3), O(4), Cr(4), Cr(1), Q(4,1,"single"), Rl(4,1), Q(1,1,"single"), Rl(1,1)>>,
+     \* a service asks for a longer idle timeout (ServiceFeedback::Reconfigure):
+     \* a slow request spanning the old timeout is still answered; a shorter
+     \* one closes the connection sooner
+     <<O(1), Cr(1), Cr(1), Q(1,1,"rlong"), Rl(1,1), Q(1,2,"single"), HT, HT, HT, Rl(1,2), HT, HT, HT, HT>>,
+     <<O(1), Cr(1), Cr(1), Q(1,1,"rshort"), Rl(1,1), HT, Q(1,2,"single"), Rl(1,2)>>,
+     <<O(1), Cr(1), Cr(1), Cr(1), Q(1,1,"rshort"), Q(1,2,"rlong"), Rl(1,1), Rl(1,2), HT, HT, HT, Q(1,3,"single"), Rl(1,3), HT>>,
+     <<O(1), O(2), Cr(1), Cr(2), Q(1,1,"rlong"), Rl(1,1), HT, HT, Q(2,1,"single"), Rl(2,1), HT>>,
      \* a failing accept() does not end the accept loop
      <<AE, O(1), Cr(1), Q(1,1,"single"), Rl(1,1)>>,
      <<O(1), AE, AE, O(2), Cr(2), Cr(1), Q(2,1,"single"), Rl(2,1), Q(1,1,"single"), Rl(1,1), AE, Ab(1), O(3), Cr(3), Rp(3,1)>>,
@@ -195,7 +209,22 @@ DgDirected ==
        Op("recv",0,"shortqr",4,""), Op("release",0,"",3,""), Op("release",0,"",1,""),
        Op("recv",0,"query",5,"stream2"), Op("release",0,"",5,""), Op("release",0,"",5,""),
        Op("recv",0,"query",6,"rfail"), Op("release",0,"",6,""), Op("release",0,"",6,""),
-       Op("release",0,"",6,"")>> >>
+       Op("release",0,"",6,"")>>,
+     \* the configured limit is the one in force when the request arrives:
+     \* lowered (1232 -> 4096 -> 1232 -> 512) and raised between requests
+     <<Op("recv",0,"query",1,"big"), Op("release",0,"",1,""),
+       Op("reconf",0,"",4096,""), Op("recv",0,"query",2,"big"), Op("release",0,"",2,""),
+       Op("reconf",0,"",1232,""), Op("recv",0,"query",3,"big"), Op("release",0,"",3,""),
+       Op("recv",0,"query",4,"big"), Op("reconf",0,"",4096,""), Op("release",0,"",4,""),
+       Op("recv",0,"query",5,"big"), Op("reconf",0,"",512,""), Op("release",0,"",5,""),
+       Op("recv",0,"query",6,"big"), Op("release",0,"",6,"")>>,
+     \* spurious readiness and send errors do not stop the server
+     <<Op("spurious",0,"",0,""), Op("recv",0,"query",1,"single"), Op("release",0,"",1,""),
+       Op("spurious",0,"",0,""), Op("spurious",0,"",0,""), Op("recv",0,"reply",2,""),
+       Op("senderr",0,"",0,""), Op("recv",0,"query",3,"single"), Op("release",0,"",3,""),
+       Op("recv",0,"query",4,"stream2"), Op("release",0,"",4,""), Op("senderr",0,"",0,""),
+       Op("release",0,"",4,""), Op("recv",0,"shortqr",5,""), Op("spurious",0,"",0,""),
+       Op("recv",0,"query",6,"single"), Op("release",0,"",6,"")>> >>
 
 EmitDirected ==
   hist = <<>> =>
